@@ -501,6 +501,11 @@ func newFatSys(c fatCfg, oracle string) (*fatSys, error) {
 		g[i] = 0x5A
 	}
 	d.Poke(g, c.Start+c.Size)
+	// small volumes are created on a range that held other bytes before (re-formatting a used partition): whatever the new
+	// filesystem hands out or reads without having written it first then shows as junk, not as convenient zeroes
+	if c.Size <= 1<<20+8192 {
+		dirtyRange(d, c.Start, c.Start+c.Size)
+	}
 	d.Allowed = []memdev.Range{{Lo: c.Start, Hi: c.Start + c.Size}}
 	s := &fatSys{cfg: c, dev: d, model: newRefTree(c.Type != 4), oracle: oracle}
 	var err error
